@@ -305,3 +305,14 @@ package jsonapi
 //@ ensures own-bytes: forall k string :: k in sr.data && dyn(sr.data[k]) == type[[]uint8] ==> k in asSoft(result).data && dyn(asSoft(result).data[k]) == type[[]uint8] && fresh(sl(asSoft(result).data[k], type[[]byte])) && sameBytes(sl(asSoft(result).data[k], type[[]byte]), sl(sr.data[k], type[[]byte]))
 //@ ensures own-ids: forall k string :: k in sr.data && dyn(sr.data[k]) == type[[]string] ==> k in asSoft(result).data && dyn(asSoft(result).data[k]) == type[[]string] && fresh(sl(asSoft(result).data[k])) && sameStrings(sl(asSoft(result).data[k]), sl(sr.data[k]))
 //@ ensures source-kept: srShape(sr) && dataKept(sr)
+
+// Creating a resource of a soft type (no NewFunc) only allocates (C12).
+//@ lemma lemma_C12_new_soft_allocates
+//@ props C12
+//@ inline Type.New
+//@ requires soft: t != nil && t.NewFunc == nil
+//@ modifies new[SoftResource]
+func lemma_C12_new_soft_allocates(t *Type) bool {
+	r := t.New()
+	return r != nil
+}
